@@ -538,8 +538,7 @@ class Ser:
             raise ValueError(k)
         self.stack.pop()
         self.occ[idx]["end"] = self.pos
-        self.occ[idx]["text"] = "".join(self.buf)[start:self.pos] \
-            if False else None
+        self.occ[idx]["text"] = None        # filled in by source()
 
     def parts(self, parts: list, in_string: bool = False) -> None:
         for p in parts:
